@@ -4,6 +4,9 @@ package main
 
 import (
 	"fmt"
+	"go/token"
+	"go/types"
+	"sort"
 	"strings"
 
 	"golang.org/x/tools/go/ssa"
@@ -12,12 +15,130 @@ import (
 func init() {
 	register(&propDef{
 		id:      "C23",
-		explain: "Structural necessary conditions of 'the FS handler never serves a file outside its root': (R1) in the FS request handler every use of the request path to look up, build or open a file happens on paths where the NUL-byte test has passed; (R2) and, when the path came from a PathRewrite function (the rewriter field is not nil), where the '..'-segment test has passed as well - rewritten paths bypass URI normalisation; (R3) every file-system open/create/remove site of the package is reachable only from the request handler (or from the documented unguarded ServeFile family) - there is no other way in; the handler's configuration fields are assigned only during initialisation; (R4) the path normaliser behind RequestCtx.Path() applies every dot-related test ('.' presence, '/./', '/../') to the percent-decoded buffer, never to the raw encoded input, so encoded dot segments are removed like literal ones. Not decided: that the normaliser equals RFC 3986 remove_dot_segments (C26), symlinks, case-insensitive file systems.",
+		explain: "Structural necessary conditions of 'the FS handler never serves a file outside its root': (R1) in the FS request handler every use of the request path to look up, build or open a file happens on paths where the NUL-byte test has passed; (R2) and, when the path came from a PathRewrite function (the rewriter field is not nil), where the '..'-segment test has passed as well - rewritten paths bypass URI normalisation; (R3) every file-system open/create/remove site of the package is reachable only from the request handler (or from the documented unguarded ServeFile family) - there is no other way in; the handler's configuration fields are assigned only during initialisation; (R4) the path normaliser behind RequestCtx.Path() applies every dot-related test ('.' presence, '/./', '/../') to the percent-decoded buffer, never to the raw encoded input, so encoded dot segments are removed like literal ones. (R5) the one byte pathToFilePath drops from the validated path is dropped only under its trailing-slash flag, and every caller computes that flag from comparing a path byte with '/' and nothing else - a last segment '..' followed by any other byte passes validation as an ordinary name. Not decided: that the normaliser equals RFC 3986 remove_dot_segments (C26), symlinks, case-insensitive file systems.",
 		run:     runC23,
 	})
 }
 
+// flagComparisons collects the comparisons that decide a boolean value: the
+// value itself, the operands it merges, and the branch conditions inside the
+// region that selects between the merged operands.
+func flagComparisons(v ssa.Value, out map[*ssa.BinOp]bool, seen map[ssa.Value]bool, depth int) {
+	if v == nil || seen[v] || depth < 0 {
+		return
+	}
+	seen[v] = true
+	switch v := v.(type) {
+	case *ssa.BinOp:
+		switch v.Op {
+		case token.EQL, token.NEQ, token.LSS, token.GTR, token.LEQ, token.GEQ:
+			out[v] = true
+		default:
+			flagComparisons(v.X, out, seen, depth-1)
+			flagComparisons(v.Y, out, seen, depth-1)
+		}
+	case *ssa.UnOp:
+		if v.Op == token.NOT {
+			flagComparisons(v.X, out, seen, depth-1)
+		}
+	case *ssa.Phi:
+		for _, e := range v.Edges {
+			flagComparisons(e, out, seen, depth-1)
+		}
+		d := v.Block().Idom()
+		if d == nil {
+			return
+		}
+		for _, b := range v.Block().Parent().Blocks {
+			if (b == d || d.Dominates(b)) && !v.Block().Dominates(b) {
+				if iff, ok := b.Instrs[len(b.Instrs)-1].(*ssa.If); ok {
+					flagComparisons(iff.Cond, out, seen, depth-1)
+				}
+			}
+		}
+	}
+}
+
+// trimmedByteIsSlash (R5): pathToFilePath drops the last byte of the path when
+// told so, after all validation has been done on the untrimmed path. That is
+// only harmless when the dropped byte is a separator: "/.." + "/" was
+// normalised away, "/.." + any other byte was validated as an ordinary
+// three-byte name and turns into ".." by the trim.
+func trimmedByteIsSlash(p *Prog, r *Report) {
+	ptf := p.Func("(*fsHandler).pathToFilePath")
+	if ptf == nil || len(ptf.Params) < 3 {
+		r.Undecided("R5", "fsHandler.pathToFilePath", "anchor not found")
+		return
+	}
+	flag := ptf.Params[2]
+	// (a) the only shortening of the path inside is the one asked for by the flag
+	n := 0
+	for _, b := range ptf.Blocks {
+		for _, in := range b.Instrs {
+			sl, ok := in.(*ssa.Slice)
+			if !ok || sl.High == nil || rootOf(sl.X) != ssa.Value(ptf.Params[1]) {
+				continue
+			}
+			if _, isC := sl.High.(*ssa.Const); isC {
+				continue
+			}
+			n++
+			guarded := false
+			for _, g := range guardsOf(b) {
+				if g.Cond == ssa.Value(flag) && g.Pol {
+					guarded = true
+				}
+			}
+			r.Check("R5", "fsHandler.pathToFilePath: the request path is shortened only when the caller said it ends in a slash", guarded, p.Pos(sl.Pos()),
+				"bytes are dropped from the already validated path without the trailing-slash flag")
+		}
+	}
+	r.Floor("R5", "places where pathToFilePath shortens the path", n, 1)
+	// (b) what callers pass as the flag is decided by comparing a path byte with '/' only
+	calls := 0
+	for _, fn := range p.funcsIn("") {
+		for _, b := range fn.Blocks {
+			for _, in := range b.Instrs {
+				c, ok := in.(*ssa.Call)
+				if !ok || c.Call.StaticCallee() != ptf || len(c.Call.Args) < 3 {
+					continue
+				}
+				calls++
+				arg := c.Call.Args[2]
+				if k, isC := arg.(*ssa.Const); isC && k.Value != nil && k.Value.ExactString() == "false" {
+					r.Check("R5", fmt.Sprintf("%s: the trailing-slash flag given to pathToFilePath is true only when the last byte of the path equals '/'", funcName(fn)), true, p.Pos(c.Pos()), "constant false")
+					continue
+				}
+				cmps := map[*ssa.BinOp]bool{}
+				flagComparisons(arg, cmps, map[ssa.Value]bool{}, 8)
+				slash, other := 0, []string{}
+				for cmp := range cmps {
+					for _, pair := range [][2]ssa.Value{{cmp.X, cmp.Y}, {cmp.Y, cmp.X}} {
+						k, isC := constInt(pair[1])
+						if !isC {
+							continue
+						}
+						if bt, isB := pair[0].Type().Underlying().(*types.Basic); !isB || bt.Kind() != types.Uint8 {
+							continue
+						}
+						if cmp.Op == token.EQL && k == '/' {
+							slash++
+						} else {
+							other = append(other, fmt.Sprintf("%s %s %d at %s", "path byte", cmp.Op, k, p.Pos(cmp.Pos())))
+						}
+					}
+				}
+				sort.Strings(other)
+				r.Check("R5", fmt.Sprintf("%s: the trailing-slash flag given to pathToFilePath is true only when the last byte of the path equals '/'", funcName(fn)), slash > 0 && len(other) == 0, p.Pos(c.Pos()),
+					"the flag also depends on another byte test ("+strings.Join(other, "; ")+"): pathToFilePath drops that byte after the NUL and '..' checks ran on the untrimmed path, so a last segment '..' followed by that byte was validated as an ordinary name and becomes '..' - the parent of the root is opened")
+			}
+		}
+	}
+	r.Floor("R5", "calls of pathToFilePath", calls, 1)
+}
+
 func runC23(p *Prog, r *Report) {
+	trimmedByteIsSlash(p, r)
 	fn := p.Func("(*fsHandler).handleRequest")
 	dd := p.Func("hasDotDotPathSegment")
 	if fn == nil || dd == nil {
